@@ -63,7 +63,13 @@ def job_cap(j):
 
 # ---------------------------------------------------------------- writers (harness side of the routes)
 
-def write_ply(path, polys):
+PLY_FMT = {'repr': repr,                          # shortest round-trip text, exponent form for tiny values (6.1e-17, 9.5e-06)
+           'e': lambda v: '%.17e' % v,            # every value in exponent form, incl. e+00 / e-01
+           'g': lambda v: '%.17g' % v}            # 17 significant digits, exponent form below 1e-4
+
+
+def write_ply(path, polys, fmt='repr'):
+    fm = PLY_FMT[fmt]
     with open(path, 'w') as f:
         f.write('%d polygons\n' % len(polys))
         f.write('pixelization 0s\nsnapped\nbalkanized\n')
@@ -71,7 +77,7 @@ def write_ply(path, polys):
             f.write('polygon %d ( %d caps, %r weight, %d pixel, %r str):\n' % (
                 p['id'], len(p['cm']), float(p['weight']), p['pixel'], float(p['str'])))
             for x, cm in zip(p['x'], p['cm']):
-                f.write(' %r %r %r %r\n' % (float(x[0]), float(x[1]), float(x[2]), float(cm)))
+                f.write(' %s %s %s %s\n' % (fm(float(x[0])), fm(float(x[1])), fm(float(x[2])), fm(float(cm))))
 
 
 def padded(polys, pad, maxcaps):
@@ -235,7 +241,7 @@ def job_window(j):
                 elif route in ('ply', 'ply_assign'):
                     path = os.path.join(d, 'polys.ply')
                     if not os.path.exists(path):
-                        write_ply(path, polys)
+                        write_ply(path, polys, j.get('ply_fmt', 'repr'))
                     got = mng.read_mangle_polygons(path)
                     if route == 'ply_assign':
                         # the text format carries no use-mask: the harness assigns it after reading
